@@ -1440,6 +1440,7 @@ func init() {
 			"C01.R2 FLAG: deferred publish keyed on a completion flag with set-last discipline",
 			"C01.R3 WMC: destructive filesystem primitives only in the staging layer table",
 			"C01.R4 MPT: disposal routines remove the temp on every failure return",
+			"C01.R5 shape: the captured finalizer variable of a stream operation is assigned once (registered temporaries are not dropped)",
 		},
 		Assumptions: []string{"std-library calls (os, io, fmt, errors, filepath) do not panic", "operation tables are replaced only in tests", "POSIX semantics of O_EXCL / rename / remove"},
 		Technique:   "typestate (acquire/dispose) must-dataflow on SSA CFGs with failure-edge generation and deferred-closure resolution; completion-flag control-dependence + set-last discipline; who-may-call tables for destructive primitives and operation-table fields; call-triviality fixpoint over the call graph",
@@ -1458,6 +1459,8 @@ func runC01(c *Ctx) {
 	checkAccumulatorsHandedBack(c)
 	checkFinalizeHelpers(c)
 	r.MinInst["C01.R4"] = 8
+	r.MinInst["C01.R5"] = 1
+	checkFinalizerSingleAssignment(c, "C01.R5")
 	checkDisposalRoutines(c)
 }
 
